@@ -596,8 +596,9 @@ ScriptStep(s) ==
                  IN
                  /\ procs' = [procs EXCEPT ![s] = [nxt EXCEPT !.val = val,
                                  !.std  = (@ \/ o.ch \in {"stdout", "both"}),
-                                 !.file = (@ \/ o.ch \in {"file", "both"})]]
-                 /\ tmp' = IF o.ch \in {"file", "both"} THEN tmp \cup {S.t} ELSE tmp
+                                 !.file = (@ \/ o.ch \in {"file", "both", "filedir"})]]
+                 \* ("filedir": $3 created as a directory; only used by rules that fail afterwards)
+                 /\ tmp' = IF o.ch \in {"file", "both", "filedir"} THEN tmp \cup {S.t} ELSE tmp
                  \* "directold": written to $1 and given an old mtime (cp -p): any different stamp counts as modified
                  /\ IF o.ch \in {"direct", "directold"} THEN
                        /\ fs' = [fs EXCEPT ![S.t] = [ex |-> TRUE, val |-> val, ver |-> clock + 1,
